@@ -5,7 +5,9 @@ import (
 	"fmt"
 	"io"
 	"io/fs"
+	"os"
 	"path"
+	"path/filepath"
 	"runtime"
 	"strings"
 	"sync"
@@ -629,7 +631,97 @@ func c20FSLoaderCase(c *C) {
 	c.Nontrivial("fsloader:" + strings.Join(trace, ";"))
 }
 
+// c20LocalLoaderCase: the cache contract over the engine's LocalFilesystemLoader and real files. Between two operations
+// a file is replaced - by text of another or of the SAME length, with a new modification time or with the old one put
+// back (rsync -t, cp -p, tar, reproducible builds) - or removed: after CleanCache(name) / CleanCache() or with Debug on,
+// FromCache compiles what the file says NOW; without a clean it keeps returning the cached template.
+func c20LocalLoaderCase(c *C) {
+	r := c.R
+	dir := filepath.Join(workerScratch, fmt.Sprintf("c20local-%d", c.Idx))
+	os.MkdirAll(dir, 0o755)
+	defer os.RemoveAll(dir)
+	loader, err := pongo2.NewLocalFileSystemLoader(dir)
+	if err != nil {
+		c.Fail("fetch-accounting", D{"error": err.Error()})
+		return
+	}
+	set := pongo2.NewSet("c20-local", loader)
+	path := filepath.Join(dir, "page.tpl")
+	part := filepath.Join(dir, "part.tpl")
+	write := func(p, txt string, keepTime bool) {
+		var old os.FileInfo
+		if keepTime {
+			old, _ = os.Stat(p)
+		}
+		os.WriteFile(p, []byte(txt), 0o644)
+		if old != nil {
+			os.Chtimes(p, old.ModTime(), old.ModTime())
+		}
+	}
+	version := 1
+	body := func(v int) string { return fmt.Sprintf("page v%03d {{ 1 }}|{%% include pn %%}", v) }
+	partBody := func(v int) string { return fmt.Sprintf("part v%03d", v) }
+	write(path, body(version), false)
+	write(part, partBody(version), false)
+	cachedVer, partVer := 0, version
+	var trace []string
+	ctx := pongo2.Context{"pn": "part.tpl"}
+	for step := 0; step < 10; step++ {
+		switch r.Intn(6) {
+		case 0:
+			version++
+			keep := r.Bool()
+			write(path, body(version), keep)
+			trace = append(trace, fmt.Sprintf("page.tpl rewritten (same length, modification time %s) -> v%03d", map[bool]string{true: "put back", false: "new"}[keep], version))
+		case 1:
+			partVer++
+			keep := r.Bool()
+			write(part, partBody(partVer), keep)
+			trace = append(trace, fmt.Sprintf("part.tpl rewritten (same length, modification time %s) -> v%03d", map[bool]string{true: "put back", false: "new"}[keep], partVer))
+		case 2:
+			if r.Bool() {
+				set.CleanCache("page.tpl")
+				trace = append(trace, "CleanCache(page.tpl)")
+			} else {
+				set.CleanCache()
+				trace = append(trace, "CleanCache()")
+			}
+			cachedVer = 0
+		case 3:
+			set.Debug = !set.Debug
+			trace = append(trace, fmt.Sprintf("Debug = %v", set.Debug))
+		default:
+			tpl, ferr := set.FromCache("page.tpl")
+			out := ""
+			if ferr == nil {
+				out, ferr = tpl.Execute(ctx)
+			}
+			wantVer := version
+			if !set.Debug {
+				if cachedVer == 0 {
+					cachedVer = version
+				}
+				wantVer = cachedVer
+			}
+			want := fmt.Sprintf("page v%03d 1|part v%03d", wantVer, partVer) // the computed-name include is loaded at every execution
+			c.Eval(1)
+			trace = append(trace, fmt.Sprintf("FromCache(page.tpl) + Execute -> %s %s", q(out), errStr(ferr)))
+			if ferr != nil || out != want {
+				c.Fail("cache-incoherent", D{"loader": "pongo2.NewLocalFileSystemLoader(dir)", "history": trace, "output": q(out), "expected": q(want), "error": errStr(ferr),
+					"why": "after a clean (or with Debug on) FromCache compiles the file as it is now; a computed-name include is fetched at every execution"})
+				return
+			}
+		}
+	}
+	c.Cover("local_filesystem_loader_files_replaced")
+	c.Nontrivial(fmt.Sprintf("local:%d:%s", c.Idx, strings.Join(trace, ";")))
+}
+
 func c20Run(c *C) {
+	if c.Idx%10 == 4 {
+		c20LocalLoaderCase(c)
+		return
+	}
 	if c.Idx%10 == 9 {
 		c20FSLoaderCase(c)
 		return
